@@ -65,6 +65,7 @@ fn main() {
                 "C17" => checks::c17::run(&tier, &args),
                 "C12" => checks::c12::run(&tier, &args),
                 "C16" => checks::c16::run(&tier, &args),
+                "C13" => checks::c13::run(&tier, &args),
                 _ => { eprintln!("unknown property {id}"); 2 }
             };
             std::process::exit(code);
